@@ -6,6 +6,7 @@ use std::fmt::Write as _;
 use syn::visit::Visit;
 
 mod find;
+mod panics;
 mod wire;
 mod issuance;
 mod namespaces;
@@ -278,6 +279,7 @@ fn main() {
     state_fields(&repo, &mut out);
     x509::x509_constants(&repo, &mut out);
     emitted_literals(&repo, &mut out);
+    panics::panic_sites(&repo, &mut out);
     wire::wire_tables(&repo, &mut out);
     issuance::issuance_items(&repo, &mut out);
     namespaces::leaf_constants(&repo, &mut out);
